@@ -191,11 +191,14 @@ def le_on(n, q, m):
     return out
 
 
-def unitary_of(tuples, ne, np_):
-    """little-endian unitary of a unitary-only circuit; qubit index = photons first, then emitters"""
+def unitary_of(tuples, ne, np_, order=None):
+    """little-endian unitary of a unitary-only circuit; qubit index = position of the register in `order`
+    (default: photons first, then emitters — the order of the declarations in the exported text)"""
     n = ne + np_
 
     def qi(q):
+        if order is not None:
+            return order[q]
         return q[1] if q[0] == "p" else np_ + q[1]
 
     u = np.eye(2 ** n, dtype=complex)
@@ -281,7 +284,12 @@ def oracle(res, ne, np_, nc, adds, state_check=True, qiskit_check=True, key_pref
             qc = None
             res.violation(f"{key_prefix}openqasm:invalid-text", f"qiskit's openQASM 2 reader rejects the text: {str(ex)[:200]}", input=inp, text=text[:1500])
         if qc is not None and n <= 5:
-            u = unitary_of(seq, ne, np_)
+            order = {}
+            for reg in qc.qregs:
+                m = re.fullmatch(r"([ep])(\d+)", reg.name)
+                if m and len(reg) == 1:
+                    order[(m.group(1), int(m.group(2)))] = qc.find_bit(reg[0]).index
+            u = unitary_of(seq, ne, np_, order) if len(order) == n else None
             if u is not None:
                 from qiskit.quantum_info import Operator
 
@@ -361,10 +369,38 @@ def classify(res, adds, ne, np_, nc):
         res.nontrivial(ne, np_, nc, tuple(adds))
 
 
+def shrink_violation(res, n_before, ne, np_, nc, adds, state_check, qiskit_check):
+    """replace the violation just recorded for this circuit by one on a minimised operation list (same key)"""
+    if len(res.violations) <= n_before or getattr(res, "_shrunk", 0) >= 4:
+        return
+    res._shrunk = getattr(res, "_shrunk", 0) + 1
+    key = res.violations[n_before]["key"]
+
+    def fails(cand):
+        r = Result()
+        try:
+            oracle(r, ne, np_, nc, cand, state_check=state_check, qiskit_check=qiskit_check)
+        except Exception:  # noqa: BLE001
+            return False
+        return any(v["key"] == key for v in r.violations)
+
+    small = cu.shrink_list(adds, fails)
+    small = cu.simplify_ops(small, fails)
+    if len(small) < len(adds) or small != list(adds):
+        r = Result()
+        oracle(r, ne, np_, nc, small, state_check=state_check, qiskit_check=qiskit_check)
+        hit = [v for v in r.violations if v["key"] == key]
+        if hit:
+            hit[0]["shrunk_from"] = cu.enc_ops(adds)[:600]
+            res.violations[n_before] = hit[0]
+
+
 def run_circuits(res, drv, specs, state_check=True, qiskit_check=True):
     batch = []
     for ne, np_, nc, adds in specs:
+        n_before = len(res.violations)
         o = oracle(res, ne, np_, nc, adds, state_check=state_check, qiskit_check=qiskit_check)
+        shrink_violation(res, n_before, ne, np_, nc, adds, state_check, qiskit_check)
         res.evaluations += 1
         classify(res, adds, ne, np_, nc)
         batch.append(o)
